@@ -273,8 +273,14 @@ func (n *Node) initChain(genesis []byte, t time.Time, initialHeight int64) (err 
 			err = &PanicError{Where: "InitChain", Value: fmt.Sprint(r), Stack: string(debug.Stack())}
 		}
 	}()
+	// no block gas limit: histories put many large-gas-limit transactions into one block and a
+	// "no block gas left" rejection would be an artefact of the driver, not of the code under test
+	cp := *simapp.DefaultConsensusParams
+	blk := *cp.Block
+	blk.MaxGas = -1
+	cp.Block = &blk
 	n.App.InitChain(abci.RequestInitChain{
-		ChainId: ChainID, Time: t, ConsensusParams: simapp.DefaultConsensusParams,
+		ChainId: ChainID, Time: t, ConsensusParams: &cp,
 		Validators: []abci.ValidatorUpdate{}, AppStateBytes: genesis, InitialHeight: initialHeight,
 	})
 	n.Height = initialHeight - 1
